@@ -327,6 +327,89 @@ func TestVerifC04(t *testing.T) {
 	for pi, p := range plans {
 		c04Run(rep, rn, filepath.Join(dir, fmt.Sprintf("c04-%d", pi)), p, pi == 0)
 	}
+	if os.Getenv("VERIF_REPLAY") == "" {
+		c04Long(rep, rn, filepath.Join(dir, "c04-long"), base)
+	}
+}
+
+// c04Long: a backlog that is larger than the output stream's read cache (1000
+// batches); one reader follows it without interruption, a second one in
+// connections of 110 messages resuming with lastseen. Both must see every message once.
+func c04Long(rep *verifrep.R, rn *raft.Raft, dir string, seed int64) {
+	os.MkdirAll(dir, 0755)
+	defer os.RemoveAll(dir)
+	p := c04Plan{Seed: seed, Replicas: 1}
+	const n = 1150
+	for i := 0; i < n; i++ {
+		id := uint64(10 + i)
+		p.Batches = append(p.Batches, c04Batch{Id: id, Replies: []c04Reply{{Reply: 1, Mine: true, Data: fmt.Sprintf("L%d", id)}}})
+	}
+	p.Batches = append(p.Batches, c04Batch{Id: uint64(10 + n + 5), Replies: []c04Reply{{Reply: 1, Mine: true, Data: "SENTINEL"}}})
+	o, err := outputstream.NewOutputStream(dir)
+	if err != nil {
+		panic(err)
+	}
+	i := ircserver.NewIRCServer("robustirc.net", time.Now())
+	i.CreateSession(robust.Id{Id: c04Session}, c04Auth, time.Now())
+	h := NewHTTP(i, rn, nil, o, nil, "robustirc.net", "pw", dir, "c04", true, 3)
+	mux := http.NewServeMux()
+	mux.HandleFunc("/robustirc/v1/", h.DispatchPublic)
+	r := &c04Replica{out: o, srv: httptest.NewServer(mux)}
+	defer func() {
+		r.srv.CloseClientConnections()
+		r.srv.Close()
+		time.Sleep(350 * time.Millisecond)
+		o.InterruptGetNext()
+		time.Sleep(20 * time.Millisecond)
+		o.Close()
+	}()
+	r.addUpTo(&p, len(p.Batches))
+	check := func(who string, got []c04Got) bool {
+		for k, g := range got {
+			if k >= len(p.Batches) || g.Id != p.Batches[k].Id {
+				want := uint64(0)
+				if k < len(p.Batches) {
+					want = p.Batches[k].Id
+				}
+				key := "gap"
+				if g.Id < want {
+					key = "duplicate"
+				}
+				rep.Violation("C04", key, fmt.Sprintf("%s, backlog of %d batches: message #%d is %d.%d, expected %d.1", who, n, k, g.Id, g.Reply, want), map[string]interface{}{"seed": seed, "long": true})
+				return false
+			}
+		}
+		if len(got) != len(p.Batches) {
+			rep.Violation("C04", "never-delivered", fmt.Sprintf("%s, backlog of %d batches: received %d of %d messages (stopped after %v)", who, n, len(got), len(p.Batches), lastOf(got)), map[string]interface{}{"seed": seed, "long": true})
+			return false
+		}
+		return true
+	}
+	all, _ := c04Read(r.srv.URL, "0.0", 0, 3*time.Second, nil)
+	ok := check("uninterrupted reader", all)
+	var pieces []c04Got
+	last := "0.0"
+	for k := 0; ok && k < 14 && len(pieces) < len(p.Batches); k++ {
+		got, _ := c04Read(r.srv.URL, last, 110, 3*time.Second, nil)
+		if len(got) == 0 {
+			break
+		}
+		pieces = append(pieces, got...)
+		last = fmt.Sprintf("%d.%d", got[len(got)-1].Id, got[len(got)-1].Reply)
+	}
+	if ok {
+		check("reader resuming every 110 messages", pieces)
+	}
+	rep.Cases(len(all) + len(pieces))
+	rep.Case("long-backlog")
+	rep.Obs("long-backlog.messages-read", len(all)+len(pieces))
+}
+
+func lastOf(g []c04Got) string {
+	if len(g) == 0 {
+		return "nothing"
+	}
+	return fmt.Sprintf("%d.%d", g[len(g)-1].Id, g[len(g)-1].Reply)
 }
 
 func c04Run(rep *verifrep.R, rn *raft.Raft, dir string, p c04Plan, sample bool) {
